@@ -85,33 +85,47 @@ struct vs_timepoint { long ticks; };
 /* std::chrono::steady_clock::now(): monotone (assumed), value otherwise unconstrained */
 extern long g_now;
 static inline struct vs_timepoint vs_steady_clock_now(void) { struct vs_timepoint t; long n; __CPROVER_assume(n >= g_now); g_now = n; t.ticks = n; return t; }
-struct vs_vec { char *data; size_t size; };
+struct vs_vec { char *data; size_t size; size_t cap; };   /* cap: capacity() (ghost-like: only reserve / growth move it; cap >= size) */
 /* data() of an empty vector: C++ allows nullptr + 0, C does not; an empty vector points at a zero-length area here */
 char vs_empty_storage[1];
 size_t g_i; char g_old;
 static inline size_t vs_vec_size(const struct vs_vec *v) { return v->size; }
 static inline char  *vs_vec_data(const struct vs_vec *v) { return v->data; }
 static inline void   vs_vec_clear(struct vs_vec *v) { v->size = 0; }
-static inline void   vs_vec_ctor(struct vs_vec *v) { v->data = 0; v->size = 0; }
+static inline void   vs_vec_ctor(struct vs_vec *v) { v->data = 0; v->size = 0; v->cap = 0; }
+static inline size_t vs_vec_capacity(const struct vs_vec *v) { return v->cap; }
+static inline char  *vs_vec_end(const struct vs_vec *v) { return v->size ? v->data + v->size : v->data; }
+static inline size_t vs_max_sz(size_t a, size_t b) { return a < b ? b : a; }
 static inline void   vs_vec_swap(struct vs_vec *a, struct vs_vec *b) { struct vs_vec t = *a; *a = *b; *b = t; }
 /* std::copy(first, last, std::back_inserter(v)): appends [first,last); storage may move; old bytes kept, new bytes == source */
 void vs_copy_back_insert(const char *first, const char *last, struct vs_vec *v)
 __CPROVER_requires(FRESH(v, sizeof(*v)) && v->size <= MAXLEN && __CPROVER_same_object(first, last) && first <= last && (size_t)(last - first) <= MAXLEN)
 __CPROVER_requires(first == last || __CPROVER_r_ok(first, (size_t)(last - first)))
 __CPROVER_requires(g_i < v->size ==> v->data[g_i] == g_old)
-__CPROVER_assigns(v->data, v->size)
-__CPROVER_ensures(v->size == OLD(v->size) + (size_t)(last - first) && FRESH(v->data, v->size))
+__CPROVER_requires(v->cap >= v->size)
+__CPROVER_assigns(v->data, v->size, v->cap)
+__CPROVER_ensures(v->size == OLD(v->size) + (size_t)(last - first) && FRESH(v->data, v->size) && v->cap >= v->size && v->cap >= OLD(v->cap))
 __CPROVER_ensures(g_i < OLD(v->size) ==> v->data[g_i] == g_old)
 __CPROVER_ensures((OLD(v->size) <= g_i && g_i < v->size) ==> v->data[g_i] == first[g_i - OLD(v->size)]);
+/* v.reserve(n): capacity() becomes at least n; size and contents are kept, the storage may move (allocation failure / length_error are
+   not modelled, as for the growth of the append above) */
+void vs_vec_reserve(struct vs_vec *v, size_t n)
+__CPROVER_requires(FRESH(v, sizeof(*v)) && v->size <= MAXLEN && v->cap >= v->size)
+__CPROVER_requires(g_i < v->size ==> v->data[g_i] == g_old)
+__CPROVER_assigns(v->data, v->cap)
+__CPROVER_ensures(v->size == OLD(v->size) && FRESH(v->data, v->size) && v->cap >= OLD(v->cap) && v->cap >= n)
+__CPROVER_ensures(g_i < v->size ==> v->data[g_i] == g_old);
+/* v.insert(pos, first, last) with pos == v.end(): an append (any other position is not modelled: asserted) */
+#define vs_vec_insert_end(v, pos, first, last) (__CPROVER_assert((pos) == vs_vec_end(v), "std::vector<char>::insert at end()"), vs_copy_back_insert(first, last, v))
 #define SB(a) ((a)->vs_base_StreamBuf)
 /* the get area covers the vector.  Directly after reset() the area is (nullptr, nullptr, nullptr) and the vector is empty:
    that state is covered by a second proof of the same functions compiled with -DVS_AFTER_RESET (a pointer predicate
    inside a disjunction is not usable with dfcc) */
 #ifndef VS_AFTER_RESET
-#define ASB_INV(a) ((a)->bytes.size <= MAXLEN && FRESH((a)->bytes.data, (a)->bytes.size) && PTR_EQ(SB(a).base, (a)->bytes.data) \
+#define ASB_INV(a) ((a)->bytes.size <= MAXLEN && (a)->bytes.cap >= (a)->bytes.size && FRESH((a)->bytes.data, (a)->bytes.size) && PTR_EQ(SB(a).base, (a)->bytes.data) \
      && SB(a).len == (a)->bytes.size && SB(a).pos <= SB(a).len)
 #else
-#define ASB_INV(a) ((a)->bytes.size == 0 && FRESH((a)->bytes.data, (a)->bytes.size) && SB(a).base == 0 && SB(a).len == 0 && SB(a).pos == 0)
+#define ASB_INV(a) ((a)->bytes.size == 0 && (a)->bytes.cap >= (a)->bytes.size && FRESH((a)->bytes.data, (a)->bytes.size) && SB(a).base == 0 && SB(a).len == 0 && SB(a).pos == 0)
 #endif
 #define STATE_AGAIN Pistache_Http_Private_State_Again
 #define STATE_NEXT  Pistache_Http_Private_State_Next
@@ -135,6 +149,7 @@ TYPES.update({'Pistache::Http::Header::Raw': 'struct vs_rawhdr', 'Header::Raw': 
     'std::unique_ptr<Pistache::Http::Private::Step>*': 'struct Pistache_Http_Private_Step **',
     'std::chrono::time_point<std::chrono::steady_clock, std::chrono::duration<long, std::ratio<1, 1000000000>>>': 'struct vs_timepoint',
     'std::vector<char>': 'struct vs_vec', 'Pistache::ArrayStreamBuf<char>::Base': 'struct vs_streambuf',
+    '__gnu_cxx::__normal_iterator<char*, std::vector<char>>': 'char *', '__gnu_cxx::__normal_iterator<const char*, std::vector<char>>': 'char *', 'std::vector<char>::iterator': 'char *', 'std::vector<char>::const_iterator': 'char *',
     'std::shared_ptr<Pistache::Http::Private::ParserImpl<Pistache::Http::Request>>': 'struct Pistache_Http_Private_ParserImpl_Pistache_Http_Request_ *',
     'std::shared_ptr<RequestParser>': 'struct Pistache_Http_Private_ParserImpl_Pistache_Http_Request_ *',
     'Pistache::Http::HttpError': 'int', 'std::exception': 'int', 'Pistache::Http::Version': 'int', 'Pistache::Http::Code': 'int', 'Pistache::Http::Method': 'int',
@@ -154,7 +169,9 @@ STUBS.update({
     'std::vector<char>::size': 'vs_vec_size', 'std::vector<char>::data': 'vs_vec_data', 'std::vector<char>::clear': 'vs_vec_clear',
     'std::vector<char>::swap': {'expr': 'vs_vec_swap($this, &($0))'},
     'copy': 'vs_copy_back_insert', 'back_inserter': {'expr': '(&($0))'},
-    'ctor:std::vector<char>|void () noexcept': {'expr': '((struct vs_vec){vs_empty_storage, 0})'},
+    'ctor:std::vector<char>|void () noexcept': {'expr': '((struct vs_vec){vs_empty_storage, 0, 0})'},
+    'std::vector<char>::capacity': 'vs_vec_capacity', 'std::vector<char>::reserve': 'vs_vec_reserve', 'std::vector<char>::end': 'vs_vec_end',
+    'std::vector<char>::insert': {'expr': 'vs_vec_insert_end($this, $0, $1, $2)'}, 'max': {'expr': 'vs_max_sz($0, $1)'},
     'std::array<std::unique_ptr<Pistache::Http::Private::Step>, 3>::begin': {'expr': '(($this)->s)'}, 'std::array<std::unique_ptr<Pistache::Http::Private::Step>, 3>::end': {'expr': '(($this)->s + 3)'},
     'operator[]|std::array<std::unique_ptr<Pistache::Http::Private::Step>, 3>,unsigned long': 'vs_steps_at',
     'std::unique_ptr<Pistache::Http::Private::Step>::get': {'expr': '(*($this))'},
@@ -271,7 +288,7 @@ static inline int vs_virtual_Step_apply(struct Pistache_Http_Private_Step *s, st
     && (b)->currentStep == 0 && g_body->bytesRead == 0 && g_body->chunk.size == -1 && g_body->chunk.bytesRead == 0)
 '''
 THROWING = ['vs_user_onRequest', 'vs_eff_cookiejar_addFromRaw', 'vs_eff_cookie_fromRaw', 'vs_eff_header_parseRaw', 'vs_virtual_Step_apply', 'vs_astr_reserve', 'vs_astr_append_ptr_n', 'vs_astr_ctor_ptr_n']
-ALWAYS_REPLACE = _s.ALWAYS_REPLACE + ['vs_eff_cookiejar_addFromRaw', 'vs_eff_cookie_fromRaw', 'vs_eff_header_parseRaw', 'vs_copy_back_insert', 'vs_strtol', 'vs_headers_tryGet_cl', 'vs_headers_tryGet_te']
+ALWAYS_REPLACE = _s.ALWAYS_REPLACE + ['vs_vec_reserve', 'vs_eff_cookiejar_addFromRaw', 'vs_eff_cookie_fromRaw', 'vs_eff_header_parseRaw', 'vs_copy_back_insert', 'vs_strtol', 'vs_headers_tryGet_cl', 'vs_headers_tryGet_te']
 OPAQUE = ['Pistache::Http::Header::Connection', 'Pistache::Http::ConnectionControl', 'Pistache::Tcp::Handler', 'Pistache::Http::ResponseWriter', 'Pistache::Tcp::Peer', 'Pistache::Tcp::Transport', 'Pistache::Http::Cookie', 'Pistache::Http::Header::Registry', 'Pistache::Http::Header::Header', 'Pistache::Http::CookieJar', 'Pistache::Http::Header::Collection', 'Pistache::Http::Uri::Query', 'Pistache::Address',
           'std::chrono::milliseconds']
 OPAQUE_UNKNOWN = True
@@ -291,14 +308,14 @@ FUNCTIONS = list(_s.FUNCTIONS) + [
     {'q': 'Pistache::ArrayStreamBuf::feed', 'contract': """
         requires FRESH(this, sizeof(*this)) && ASB_INV(this) && len <= MAXLEN && FRESH(data, len)
         requires g_i < this->bytes.size ==> this->bytes.data[g_i] == g_old
-        assigns SB(this).base, SB(this).pos, SB(this).len, this->bytes.data, this->bytes.size
+        assigns SB(this).base, SB(this).pos, SB(this).len, this->bytes.data, this->bytes.size, this->bytes.cap
         # C14: accepted exactly when the cumulative size stays within the limit, however the bytes were split
         ensures RET == (OLD(this->bytes.size) + len <= this->maxSize)
         # (order matters when this contract replaces a call: the storage is made fresh first, then the area is tied to it)
         ensures RET ==> (this->bytes.size == OLD(this->bytes.size) + len && FRESH(this->bytes.data, this->bytes.size))
         ensures RET ==> PTR_EQ(SB(this).base, this->bytes.data)
         ensures !RET ==> SB(this).base == OLD(SB(this).base)
-        ensures SB(this).len == this->bytes.size && SB(this).pos == OLD(SB(this).pos)
+        ensures SB(this).len == this->bytes.size && SB(this).pos == OLD(SB(this).pos) && this->bytes.cap >= this->bytes.size
         ensures !RET ==> (this->bytes.size == OLD(this->bytes.size) && this->bytes.data == OLD(this->bytes.data))
         # C01-L6: the bytes already buffered are kept, the new bytes are the data fed
         ensures (RET && g_i < OLD(this->bytes.size)) ==> this->bytes.data[g_i] == g_old
@@ -434,7 +451,7 @@ FUNCTIONS = list(_s.FUNCTIONS) + [
     {'q': 'Pistache::Http::Private::ParserBase::feed', 'contract': """
         requires RP_PRE(g_rp) && PTR_EQ(this, PB(g_rp)) && len <= MAXLEN && FRESH(data, len)
         requires g_i < this->buffer.bytes.size ==> this->buffer.bytes.data[g_i] == g_old
-        assigns SB(&this->buffer).base, SB(&this->buffer).pos, SB(&this->buffer).len, this->buffer.bytes.data, this->buffer.bytes.size
+        assigns SB(&this->buffer).base, SB(&this->buffer).pos, SB(&this->buffer).len, this->buffer.bytes.data, this->buffer.bytes.size, this->buffer.bytes.cap
         ensures RET == (OLD(this->buffer.bytes.size) + len <= this->buffer.maxSize)
         ensures RET ==> this->buffer.bytes.size == OLD(this->buffer.bytes.size) + len
         ensures !RET ==> this->buffer.bytes.size == OLD(this->buffer.bytes.size)
